@@ -1,55 +1,46 @@
 /-
-C19 — property theorems (only). Model: `HydroVerif/Model/C19.lean`.
+C19 — property theorems (only) and the `example`s that show their hypotheses are met. Model: `HydroVerif/Model/C19.lean`
+(mirrors `hydrodiy/io/hyruns.py` branch for branch); helper lemmas: `HydroVerif/Lemmas/C19.lean`.
 
-Clause of the property                                   | theorems                                              | outside the theorems
----------------------------------------------------------|-------------------------------------------------------|---------------------
-batches contiguous and ordered                           | batch_eq_range', bstart_succ, bstart_zero, bstart_last | numpy.array_split itself (compared by result)
-pairwise disjoint, cover every element exactly once      | batches_partition, batches_disjoint, mem_batch_lt      | -
-sizes differ by at most one; none empty for k <= n        | bsize_diff_le_one, bsize_pos                           | -
-accepted / rejected calls (three guards, in code order)  | getBatch_ok, getBatch_rejects                          | exception types (by name in the correspondence)
-SiteBatch.search returns the batch containing the site   | search_correct, search_none                            | site ids are unique (a site = its position)
-every combination of option values exactly once          | product_length, mem_product, product_nodup, fromCartesian_task_keys, fromCartesian_task_values, fromCartesian_tasks_nodup, fromCartesian_ntasks | itertools.product (compared by result)
-scalars given bare                                       | fromCartesianArgs_bare, fromCartesianArgs_ntasks       | isinstance tests of the wrapper (correspondence: `!v` rows)
-equal in both directions after dictionary/JSON round trip| taskFromDict_taskToDict, fromDict_toDict, mEq_refl, roundtrip_eq_both, roundtrip_cartesian, roundtrip_fails_on_collision | json.dumps/loads (oracle on the real code); context values are opaque strings in the model
-find returns exactly the tasks whose option equals value | mem_find, find_cartesian, find_sorted, find_unknown_key | `re.search` on string forms (anchored literal = equality for the value alphabet of the quantifier)
+Clause of the property                                   | theorems                                                                  | outside the theorems
+---------------------------------------------------------|---------------------------------------------------------------------------|---------------------
+batches contiguous and ordered                           | batch_contiguous, batches_consecutive, sectionSizes_eq_bsize, divPoints_eq_bstart, arraySplit_range | numpy's slicing primitive and `arange` (the arithmetic of `array_split` — divmod, section sizes, cumsum, slices — is in the model and compared row by row)
+pairwise disjoint, cover every element exactly once      | batches_partition, batches_disjoint, mem_batch_lt, arraySplit_concat (ANY array), getBatch_partition | -
+sizes differ by at most one; none empty for k <= n        | bsize_diff_le_one, bsize_pos, getBatch_partition, arraySplit_concat        | -
+accepted / rejected calls (three guards, in code order)  | getBatch_ok, getBatch_rejects (which guard speaks), getBatch_ok_iff, getBatch_never_numpy | exception classes and messages (the correspondence compares accepted / rejected)
+SiteBatch: constructor guard, sb[i], search              | SiteBatch.mk?_iff, SiteBatch.getItem_ok, SiteBatch.getItem_rejects, SiteBatch.items_partition, SiteBatch.search_eq_position, SiteBatch.search_correct, SiteBatch.search_absent, SiteBatch.search_rejects, SiteBatch.search_no_batch, search_correct, search_none | np.array / np.unique / tolist conversions of the ids (integer or string ids in the correspondence)
+every combination of option values exactly once          | product_length, mem_product, product_nodup, product_repeats_counterexample, product_mem_length, product_cons_getElem?, cartesian_accepts, fromCartesianArgs_eq, fromCartesianArgs_eq_of_nodup, fromCartesian_task_keys, fromCartesian_task_values, fromCartesian_tasks_nodup, fromCartesian_ntasks, fromCartesianArgs_ntasks | itertools.product (the model's `product` is its recursion; compared by result)
+scalars given bare, containers, non-iterable options     | fromCartesianArgs_bare, cartesian_accepted_iff, cartesian_rejects          | the isinstance / hasattr classification of python objects (the harness encodes it: `!v`, `-`, `?`)
+get_task / task[key]                                     | getTask_isSome_iff, getTask_eq, getTask_cartesian, task_get_option, task_get_context, toDict_tasks | -
+equal in both directions after dictionary/JSON round trip| taskFromDict_taskToDict, toDict_tasks, fromDict_toDict_okEq, fromDict_toDict, mEq_refl, roundtrip_eq_both, roundtrip_cartesian, roundtrip_fails_on_collision | json.dumps/loads and the file system (identity on documents in the model; oracle on the real code); a field of the wrong kind counts as a failed import
+find returns exactly the tasks whose option equals value | mem_find, find_unknown_key, find_no_task, valMatch_quant, valMatch_counterexamples, find_cartesian, find_cartesian_exact | python `re` beyond anchored literals with `.` (patterns of `search` other than `^v$`)
+histories on one manager / key names / dictionary / files| run_outputs, run_name_context, step_accessor, step_rejected, step_cartesian_rejected, step_setKey, history_mgr, history_answers, history_unique_keys, history_roundtrip, history_save_load, history_files_sound | aliasing between an exported dictionary and the manager (the model has value semantics; the correspondence drives the real objects through the same operation lists)
+
+Hypotheses that the property text does not state, and where they come from:
+* `0 < k`, `i < k`, `k ≤ n` of the batch theorems — the guards of `get_batch` (`getBatch_ok_iff`); `getBatch_partition` needs `1 ≤ k ≤ n` only.
+* `ids.Nodup` of the search theorems — the assertion of the `SiteBatch` constructor (`SiteBatch.mk?_iff`).
+* unique dictionary keys (`mEq_refl`, `roundtrip_eq_both`) — discharged for every manager the code can build
+  (`roundtrip_cartesian`, `history_unique_keys`: `dictOf` never repeats a key).
+* option value lists without repeats (`product_nodup`) — needed (`product_repeats_counterexample`); the harness probes repeated values.
+* key names that do not collide at the top level (`KeyNames.okEq` / `ok`) — needed (`roundtrip_fails_on_collision`); probed. Task-level
+  collisions are harmless (`taskFromDict_taskToDict` has no hypothesis).
+* values of the quantifier's alphabet in `find_cartesian_exact` (`Val.quant`) — needed (`valMatch_counterexamples`); probed.
 -/
-import HydroVerif.Model.C19
-import Mathlib.Data.List.Range
-import Mathlib.Data.List.Nodup
-import Mathlib.Data.List.Basic
-import Mathlib.Tactic.Ring
-import Mathlib.Tactic.Linarith
+import HydroVerif.Lemmas.C19
 
 namespace HydroVerif.C19
 
+
+/-! ### get_batch -/
+
 /-- batches are contiguous and ordered: batch `i` is the interval `[bstart, bstart + bsize)` -/
-theorem batch_eq_range' (n k i : Nat) : batch n k i = List.range' (bstart n k i) (bsize n k i) := by
-  unfold batch
-  rw [List.range_eq_range', List.map_add_range']
-  simp
+theorem batch_contiguous (n k i : Nat) : batch n k i = List.range' (bstart n k i) (bsize n k i) :=
+  batch_eq_range' n k i
 
-/-- consecutive: batch `i+1` starts where batch `i` ends -/
-theorem bstart_succ (n k i : Nat) : bstart n k (i+1) = bstart n k i + bsize n k i := by
-  unfold bstart bsize
-  split <;> rename_i h
-  · rw [Nat.min_eq_left (by omega), Nat.min_eq_left (by omega)]; ring
-  · rw [Nat.min_eq_right (by omega), Nat.min_eq_right (by omega)]; ring
-
-theorem bstart_zero (n k : Nat) : bstart n k 0 = 0 := by simp [bstart]
-
-theorem bstart_last (n k : Nat) (hk : 0 < k) : bstart n k k = n := by
-  unfold bstart
-  have h1 : n % k < k := Nat.mod_lt _ hk
-  rw [Nat.min_eq_right (by omega)]
-  exact Nat.div_add_mod n k
-
-theorem flatMap_batch_prefix (n k j : Nat) :
-    (List.range j).flatMap (batch n k) = List.range (bstart n k j) := by
-  induction j with
-  | zero => simp [bstart_zero]
-  | succ j ih =>
-    rw [List.range_succ, List.flatMap_append, ih, bstart_succ, List.range_add]
-    simp [batch]
+/-- consecutive: the first batch starts at 0, batch `i+1` starts where batch `i` ends, the last one ends at `n` -/
+theorem batches_consecutive (n k : Nat) :
+    bstart n k 0 = 0 ∧ (∀ i, bstart n k (i+1) = bstart n k i + bsize n k i) ∧ (0 < k → bstart n k k = n) :=
+  ⟨bstart_zero n k, bstart_succ n k, bstart_last n k⟩
 
 /-- the batches, taken in order, list every element `0..n-1` exactly once and in order:
 cover + pairwise disjoint + ordered, for every `n` and every `k ≥ 1` -/
@@ -62,15 +53,8 @@ theorem batches_disjoint (n k i j : Nat) (hij : i < j) (x : Nat)
     (hi : x ∈ batch n k i) (hj : x ∈ batch n k j) : False := by
   rw [batch_eq_range'] at hi hj
   simp only [List.mem_range'_1] at hi hj
-  have hmono : ∀ d, bstart n k (i + 1) ≤ bstart n k (i + 1 + d) := by
-    intro d; induction d with
-    | zero => simp
-    | succ d ih =>
-      have h := bstart_succ n k (i + 1 + d)
-      show bstart n k (i + 1) ≤ bstart n k (i + 1 + d + 1)
-      omega
-  have := hmono (j - (i+1))
-  rw [show i + 1 + (j - (i+1)) = j by omega, bstart_succ] at this
+  have := bstart_mono n k (show i + 1 ≤ j by omega)
+  rw [bstart_succ] at this
   omega
 
 /-- sizes differ by at most one -/
@@ -89,7 +73,127 @@ theorem mem_batch_lt (n k i x : Nat) (hk : 0 < k) (hi : i < k) (hx : x ∈ batch
   rw [batches_partition n k hk] at h
   exact List.mem_range.mp h
 
-/-- `search` returns the (unique) batch that contains the site -/
+/-- numpy's own arithmetic (`divmod`, section sizes, `cumsum`, slices) yields the closed form: the section sizes
+are the batch sizes and the division points are the batch starts -/
+theorem sectionSizes_eq_bsize (n k : Nat) (hk : 0 < k) : sectionSizes n k = (List.range k).map (bsize n k) := by
+  have hr : n % k < k := Nat.mod_lt _ hk
+  apply List.ext_getElem
+  · simp [sectionSizes_length n k hk]
+  · intro i h1 h2
+    simp only [List.length_map, List.length_range] at h2
+    simp only [sectionSizes, List.getElem_map, List.getElem_range, bsize]
+    by_cases h : i < n % k
+    · rw [List.getElem_append_left (by simpa using h)]; simp [h]
+    · rw [List.getElem_append_right (by simpa using h)]; simp [h]
+
+theorem divPoints_eq_bstart (n k : Nat) (hk : 0 < k) : divPoints n k = (List.range (k + 1)).map (bstart n k) := by
+  apply List.ext_getElem?
+  intro i
+  by_cases hi : i ≤ k
+  · rw [divPoints_getElem? n k i hk hi]
+    simp [List.getElem?_range (show i < k + 1 by omega)]
+  · rw [List.getElem?_eq_none (by unfold divPoints; rw [cumsum_length, sectionSizes_length n k hk]; omega),
+      List.getElem?_eq_none (by simp; omega)]
+
+/-- `array_split(arange(n), k)` is the list of the `k` batches -/
+theorem arraySplit_range (n k : Nat) (hk : 0 < k) :
+    arraySplit (List.range n) k = (List.range k).map fun i => some (batch n k i) := by
+  unfold arraySplit
+  exact List.map_congr_left fun i hi => arraySplitAt_range n k i hk (List.mem_range.mp hi)
+
+/-- for ANY array: the sub-arrays of `array_split(l, k)`, concatenated, give `l` back (nothing lost, duplicated, reordered) -/
+theorem arraySplit_concat {α : Type} (l : List α) (k : Nat) (hk : 0 < k) :
+    ∃ parts, allSome (arraySplit l k) = some parts ∧ parts.flatten = l ∧ parts.length = k ∧
+      ∀ i j (hi : i < parts.length) (hj : j < parts.length), parts[i].length ≤ parts[j].length + 1 := by
+  refine ⟨(List.range k).map fun i => (l.drop (bstart l.length k i)).take (bsize l.length k i), ?_, ?_, by simp, ?_⟩
+  · unfold arraySplit
+    exact allSome_map_some _ _ _ fun i hi => arraySplitAt_eq l k i hk (List.mem_range.mp hi)
+  · have key : ∀ j, j ≤ k → ((List.range j).map fun i => (l.drop (bstart l.length k i)).take (bsize l.length k i)).flatten
+        = l.take (bstart l.length k j) := by
+      intro j hj
+      induction j with
+      | zero => simp [bstart_zero]
+      | succ j ih =>
+        rw [List.range_succ, List.map_append, List.flatten_append, ih (by omega), bstart_succ, List.take_add]
+        simp
+    rw [key k (Nat.le_refl k), bstart_last _ _ hk, List.take_length]
+  · intro i j hi hj
+    simp only [List.length_map, List.length_range] at hi hj
+    simp only [List.getElem_map, List.getElem_range, List.length_take, List.length_drop]
+    have h1 := bstart_add_bsize_le l.length k i hk hi
+    have h2 := bstart_add_bsize_le l.length k j hk hj
+    have := bsize_diff_le_one l.length k i j
+    omega
+
+/-- accepted calls return the batch (guards passed, numpy's split evaluated) -/
+theorem getBatch_ok (n k i : Int) (h1 : 1 ≤ n) (h2 : k ≤ n) (h3 : 0 ≤ i) (h4 : i < k) :
+    getBatch n k i = .ok (batch n.toNat k.toNat i.toNat) := by
+  unfold getBatch
+  rw [if_neg (by omega), if_neg (by omega), if_neg (by omega),
+    arraySplitAt_range _ _ _ (by omega) (by omega)]
+
+/-- rejected calls are rejected, with the guard that speaks first -/
+theorem getBatch_rejects (n k i : Int) (h : n < 1 ∨ n < k ∨ i < 0 ∨ k ≤ i) :
+    getBatch n k i = .error (if n < 1 then .nelemLt1 else if n < k then .nelemLtNbatch else .ibatchRange) := by
+  unfold getBatch
+  split
+  · rfl
+  · split
+    · rfl
+    · split
+      · rfl
+      · omega
+
+/-- a call is accepted exactly when `1 ≤ nbatch ≤ nelements` and `0 ≤ ibatch < nbatch`: the hypotheses of the
+partition theorems are what the guards of the code enforce; numpy's own error (0 sections) is never reached -/
+theorem getBatch_ok_iff (n k i : Int) :
+    (∃ l, getBatch n k i = .ok l) ↔ (1 ≤ k ∧ k ≤ n ∧ 0 ≤ i ∧ i < k) := by
+  constructor
+  · rintro ⟨l, hl⟩
+    by_contra hc
+    rw [getBatch_rejects n k i (by omega)] at hl
+    cases hl
+  · rintro ⟨h1, h2, h3, h4⟩
+    exact ⟨_, getBatch_ok n k i (by omega) h2 h3 h4⟩
+
+theorem getBatch_never_numpy (n k i : Int) : getBatch n k i ≠ .error .numpy ∧ getBatch n k i ≠ .error .indexError := by
+  by_cases h : 1 ≤ k ∧ k ≤ n ∧ 0 ≤ i ∧ i < k
+  · rw [getBatch_ok n k i (by omega) h.2.1 h.2.2.1 h.2.2.2]; simp
+  · rw [getBatch_rejects n k i (by omega)]
+    split
+    · simp
+    · split <;> simp
+
+/-- the property at the entry point: for `1 ≤ nbatch ≤ nelements` every index `0..nbatch-1` is accepted, and the
+batches returned, in order, are contiguous, ordered, disjoint, cover `0..nelements-1` once and are balanced and non-empty -/
+theorem getBatch_partition (n k : Nat) (hk : 1 ≤ k) (hkn : k ≤ n) :
+    ∃ bs : List (List Nat), (List.range k).map (fun (i : Nat) => getBatch (n : Int) (k : Int) (i : Int)) = bs.map .ok ∧
+      bs.flatten = List.range n ∧ bs.length = k ∧
+      (∀ b ∈ bs, b ≠ []) ∧
+      ∀ i j (hi : i < bs.length) (hj : j < bs.length), bs[i].length ≤ bs[j].length + 1 := by
+  refine ⟨(List.range k).map (batch n k), ?_, ?_, by simp, ?_, ?_⟩
+  · rw [List.map_map]
+    apply List.map_congr_left
+    intro i hi
+    have := List.mem_range.mp hi
+    simp only [Function.comp]
+    rw [getBatch_ok n k i (by omega) (by omega) (by omega) (by omega)]
+    simp
+  · rw [← List.flatMap_def, batches_partition n k (by omega)]
+  · intro b hb
+    obtain ⟨i, _, rfl⟩ := List.mem_map.mp hb
+    have := bsize_pos n k i (by omega) hkn
+    intro hc
+    have hl := congrArg List.length hc
+    simp [batch] at hl
+    omega
+  · intro i j hi hj
+    simp only [List.getElem_map, List.getElem_range, batch, List.length_map, List.length_range]
+    exact bsize_diff_le_one n k i j
+
+/-! ### SiteBatch -/
+
+/-- `search` by position returns the (unique) batch that contains the site -/
 theorem search_correct (n k s : Nat) (hk : 0 < k) (hs : s < n) :
     ∃ i, search n k s = some i ∧ i < k ∧ s ∈ batch n k i ∧
       ∀ j, j < k → s ∈ batch n k j → j = i := by
@@ -112,7 +216,7 @@ theorem search_correct (n k s : Nat) (hk : 0 < k) (hs : s < n) :
     · exact batches_disjoint n k j i h s hsj hsi
     · exact batches_disjoint n k i j h s hsi hsj
 
-/-- a site that is not in the list is in no batch -/
+/-- a position beyond the list is in no batch -/
 theorem search_none (n k s : Nat) (hk : 0 < k) (hs : n ≤ s) : search n k s = none := by
   unfold search
   rw [List.find?_eq_none]
@@ -120,22 +224,136 @@ theorem search_none (n k s : Nat) (hk : 0 < k) (hs : n ≤ s) : search n k s = n
   have := mem_batch_lt n k i s hk (List.mem_range.mp hi) (by simpa using hc)
   omega
 
-/-- accepted calls return the batch, rejected calls are rejected (all three guards) -/
-theorem getBatch_ok (n k i : Int) (h1 : 1 ≤ n) (h2 : k ≤ n) (h3 : 0 ≤ i) (h4 : i < k) :
-    getBatch n k i = .ok (batch n.toNat k.toNat i.toNat) := by
-  unfold getBatch
-  rw [if_neg (by omega), if_neg (by omega), if_neg (by omega)]
+/-- the constructor accepts exactly the lists without repeated ids: uniqueness of the site ids is the code's own guard -/
+theorem SiteBatch.mk?_iff {α : Type} [DecidableEq α] (ids : List α) (k : Int) (sb : SiteBatch α) :
+    SiteBatch.mk? ids k = some sb ↔ ids.Nodup ∧ sb = ⟨ids, k⟩ := by
+  unfold SiteBatch.mk?
+  rw [← nunique_eq_length_iff]
+  split <;> rename_i h
+  · simp [h, eq_comm]
+  · simp [h]
 
-theorem getBatch_rejects (n k i : Int) (h : n < 1 ∨ n < k ∨ i < 0 ∨ k ≤ i) :
-    ∃ e, getBatch n k i = .error e := by
-  unfold getBatch
-  split
-  · exact ⟨_, rfl⟩
-  · split
-    · exact ⟨_, rfl⟩
-    · split
-      · exact ⟨_, rfl⟩
-      · omega
+/-- `sb[i]` is the `i`-th contiguous slice of the site list as given — the `i`-th sub-array of `array_split(ids, k)` -/
+theorem SiteBatch.getItem_ok {α : Type} (ids : List α) (k i : Nat) (hk : 1 ≤ k) (hkn : k ≤ ids.length) (hi : i < k) :
+    (⟨ids, k⟩ : SiteBatch α).getItem i = .ok ((ids.drop (bstart ids.length k i)).take (bsize ids.length k i)) ∧
+      arraySplitAt ids k i = some ((ids.drop (bstart ids.length k i)).take (bsize ids.length k i)) := by
+  refine ⟨?_, arraySplitAt_eq ids k i (by omega) hi⟩
+  unfold SiteBatch.getItem
+  simp only
+  rw [getBatch_ok _ _ _ (by omega) (by omega) (by omega) (by omega)]
+  simp only [Int.toNat_natCast]
+  rw [batch_eq_range', gather_range' _ _ _ (bstart_add_bsize_le _ _ _ (by omega) hi)]
+
+/-- an index or a configuration that `get_batch` rejects is rejected by `sb[i]` -/
+theorem SiteBatch.getItem_rejects {α : Type} (ids : List α) (k i : Int)
+    (h : (ids.length : Int) < 1 ∨ (ids.length : Int) < k ∨ i < 0 ∨ k ≤ i) :
+    ∃ e, (⟨ids, k⟩ : SiteBatch α).getItem i = .error e := by
+  unfold SiteBatch.getItem
+  simp only
+  rw [getBatch_rejects _ _ _ h]
+  exact ⟨_, rfl⟩
+
+/-- the batches of a SiteBatch, concatenated, are the site list: every site in exactly one batch, in the order given -/
+theorem SiteBatch.items_partition {α : Type} (ids : List α) (k : Nat) (hk : 1 ≤ k) (hkn : k ≤ ids.length) :
+    ∃ items : List (List α), (List.range k).map (fun i => (⟨ids, k⟩ : SiteBatch α).getItem (i : Nat)) = items.map .ok ∧
+      items.flatten = ids := by
+  obtain ⟨parts, hp, hflat, _, _⟩ := arraySplit_concat ids k (by omega)
+  refine ⟨parts, ?_, hflat⟩
+  unfold arraySplit at hp
+  rw [allSome_eq_some_iff] at hp
+  have : (List.range k).map (fun i => (⟨ids, k⟩ : SiteBatch α).getItem (i : Nat))
+      = (List.range k).map (fun i => Except.ok ((ids.drop (bstart ids.length k i)).take (bsize ids.length k i))) :=
+    List.map_congr_left fun i hi => (SiteBatch.getItem_ok ids k i hk hkn (List.mem_range.mp hi)).1
+  rw [this]
+  have h2 : (List.range k).map (arraySplitAt ids k)
+      = (List.range k).map (fun i => some ((ids.drop (bstart ids.length k i)).take (bsize ids.length k i))) :=
+    List.map_congr_left fun i hi => arraySplitAt_eq ids k i (by omega) (List.mem_range.mp hi)
+  rw [h2] at hp
+  have h3 : (List.range k).map (fun i => (ids.drop (bstart ids.length k i)).take (bsize ids.length k i)) = parts := by
+    apply List.map_injective_iff.mpr (Option.some_injective _)
+    rw [← hp, List.map_map]; rfl
+  rw [← h3, List.map_map]; rfl
+
+/-- `sb.search(id)` on the ids refines the search by position: for a list without repeats (the constructor's guard)
+and `1 ≤ nbatch ≤ nsites`, the site at position `s` is found in the batch of its position -/
+theorem SiteBatch.search_eq_position {α : Type} [DecidableEq α] (ids : List α) (k s : Nat) (hn : ids.Nodup)
+    (hk : 1 ≤ k) (hkn : k ≤ ids.length) (hs : s < ids.length) :
+    (⟨ids, k⟩ : SiteBatch α).search ids[s] = .ok (C19.search ids.length k s) := by
+  unfold SiteBatch.search
+  simp only [Int.toNat_natCast]
+  rw [SiteBatch.searchLoop_eq_find _ _ (fun i => (ids.drop (bstart ids.length k i)).take (bsize ids.length k i)) _
+    (fun i hi => (SiteBatch.getItem_ok ids k i hk hkn (List.mem_range.mp hi)).1)]
+  unfold C19.search
+  congr 1
+  apply find?_congr'
+  intro i _
+  rw [Bool.eq_iff_iff]
+  simp only [List.contains_iff_mem, batch_eq_range', List.mem_range'_1]
+  rw [mem_drop_take]
+  constructor
+  · rintro ⟨j, h1, h2, h3⟩
+    have := nodup_getElem?_inj ids hn j s hs h3
+    omega
+  · rintro ⟨h1, h2⟩
+    exact ⟨s, h1, h2, List.getElem?_eq_getElem hs⟩
+
+/-- ... so it returns the one batch that holds the site -/
+theorem SiteBatch.search_correct {α : Type} [DecidableEq α] (ids : List α) (k s : Nat) (hn : ids.Nodup)
+    (hk : 1 ≤ k) (hkn : k ≤ ids.length) (hs : s < ids.length) :
+    ∃ i items, (⟨ids, k⟩ : SiteBatch α).search ids[s] = .ok (some i) ∧ i < k ∧
+      (⟨ids, k⟩ : SiteBatch α).getItem (i : Nat) = .ok items ∧ ids[s] ∈ items ∧
+      ∀ j items', j < k → (⟨ids, k⟩ : SiteBatch α).getItem (j : Nat) = .ok items' → ids[s] ∈ items' → j = i := by
+  obtain ⟨i, hi, hik, hmem, huniq⟩ := C19.search_correct ids.length k s (by omega) hs
+  have key : ∀ j, j < k → (ids[s] ∈ (ids.drop (bstart ids.length k j)).take (bsize ids.length k j) ↔ s ∈ batch ids.length k j) := by
+    intro j _
+    rw [mem_drop_take, batch_eq_range', List.mem_range'_1]
+    constructor
+    · rintro ⟨j', h1, h2, h3⟩
+      have := nodup_getElem?_inj ids hn j' s hs h3
+      omega
+    · rintro ⟨h1, h2⟩
+      exact ⟨s, h1, h2, List.getElem?_eq_getElem hs⟩
+  refine ⟨i, _, ?_, hik, (SiteBatch.getItem_ok ids k i hk hkn hik).1, (key i hik).mpr hmem, ?_⟩
+  · rw [SiteBatch.search_eq_position ids k s hn hk hkn hs, hi]
+  · intro j items' hj hitem hin
+    rw [(SiteBatch.getItem_ok ids k j hk hkn hj).1] at hitem
+    cases hitem
+    exact huniq j hj ((key j hj).mp hin)
+
+/-- a site that is not in the list is found in no batch -/
+theorem SiteBatch.search_absent {α : Type} [DecidableEq α] (ids : List α) (k : Nat) (id : α) (hid : id ∉ ids)
+    (hk : 1 ≤ k) (hkn : k ≤ ids.length) :
+    (⟨ids, k⟩ : SiteBatch α).search id = .ok none := by
+  unfold SiteBatch.search
+  simp only [Int.toNat_natCast]
+  rw [SiteBatch.searchLoop_eq_find _ _ (fun i => (ids.drop (bstart ids.length k i)).take (bsize ids.length k i)) _
+    (fun i hi => (SiteBatch.getItem_ok ids k i hk hkn (List.mem_range.mp hi)).1)]
+  congr 1
+  rw [List.find?_eq_none]
+  intro i _ hc
+  simp only [List.contains_iff_mem] at hc
+  exact hid (List.mem_of_mem_drop (List.mem_of_mem_take hc))
+
+/-- more batches than sites: `search` is rejected (the first `sb[0]` raises); no batch at all (`nbatch ≤ 0`): nothing is found -/
+theorem SiteBatch.search_rejects {α : Type} [BEq α] (ids : List α) (k : Int) (id : α) (h : (ids.length : Int) < k) :
+    ∃ e, (⟨ids, k⟩ : SiteBatch α).search id = .error e := by
+  unfold SiteBatch.search
+  simp only
+  obtain ⟨m, hm⟩ : ∃ m, k.toNat = m + 1 := ⟨k.toNat - 1, by omega⟩
+  rw [hm, List.range_succ_eq_map]
+  simp only [SiteBatch.searchLoop]
+  obtain ⟨e, he⟩ := SiteBatch.getItem_rejects ids k ((0 : Nat) : Int) (by omega)
+  rw [he]
+  exact ⟨e, rfl⟩
+
+theorem SiteBatch.search_no_batch {α : Type} [BEq α] (ids : List α) (k : Int) (id : α) (h : k ≤ 0) :
+    (⟨ids, k⟩ : SiteBatch α).search id = .ok none := by
+  unfold SiteBatch.search
+  simp only
+  rw [show k.toNat = 0 by omega]
+  rfl
+
+
 
 /-! ### cartesian product -/
 
@@ -183,182 +401,139 @@ theorem product_nodup (ls : List (List Val)) (h : ∀ l ∈ ls, l.Nodup) : (prod
       rintro x ⟨t1, _, rfl⟩ ⟨t2, _, h2⟩
       exact hab (by simpa using (List.cons_eq_cons.mp h2).1.symm)
 
-/-- the number of tasks of a cartesian-product manager -/
-theorem fromCartesian_ntasks (name : String) (ctx : Dict) (opts : List (String × List Val)) :
-    (fromCartesian name ctx opts).tasks.length = ((opts.map (·.2)).map List.length).prod := by
-  simp [fromCartesian, product_length]
-
-/-! ### find -/
-
-theorem mem_find (m : Manager) (key : String) (val : Val) (hk : (m.options.lookup key).isSome) (i : Nat) :
-    (∃ l, find m key val = some l ∧
-      (i ∈ l ↔ ∃ t, m.tasks[i]? = some t ∧ t.lookup key = some val)) := by
-  unfold find
-  have : ¬ (m.options.lookup key).isNone := by
-    cases h : m.options.lookup key <;> simp_all
-  rw [if_neg this]
-  refine ⟨_, rfl, ?_⟩
-  simp only [List.mem_filter, List.mem_range]
-  constructor
-  · rintro ⟨hi, hp⟩
-    cases ht : m.tasks[i]? with
-    | none => simp [ht] at hp
-    | some t => simp [ht] at hp; exact ⟨t, rfl, hp⟩
-  · rintro ⟨t, ht, hv⟩
-    have hi : i < m.tasks.length := by
-      by_contra hc
-      rw [List.getElem?_eq_none (by omega)] at ht
-      cases ht
-    exact ⟨hi, by simp [ht, hv]⟩
-
-theorem find_unknown_key (m : Manager) (key : String) (val : Val) (hk : m.options.lookup key = none) :
-    find m key val = none := by
-  simp [find, hk]
-
-/-! ### dictionary round trip -/
-
-/-- the key names do not collide with each other nor with the fixed keys -/
-def KeyNames.ok (kn : KeyNames) : Prop :=
-  kn.context ≠ kn.taskOptions ∧ kn.context ≠ kn.managerOptions ∧
-  kn.context ≠ "taskid" ∧ kn.taskOptions ≠ "taskid" ∧
-  kn.context ≠ "name" ∧ kn.context ≠ "tasks" ∧
-  kn.managerOptions ≠ "name" ∧ kn.managerOptions ≠ "tasks"
-
-instance (kn : KeyNames) : Decidable kn.ok := by unfold KeyNames.ok; infer_instance
-
-theorem taskFromDict_taskToDict (kn : KeyNames) (hk : kn.ok) (id : Nat) (ctx opts : Dict) :
-    taskFromDict kn (pyDict (taskToDict kn id ctx opts)) = some opts := by
-  obtain ⟨h1, _, h3, h4, _⟩ := hk
-  have e1 : ("taskid" == kn.context) = false := by simpa using Ne.symm h3
-  have e2 : (kn.context == kn.taskOptions) = false := by simpa using h1
-  have e3 : ("taskid" == kn.taskOptions) = false := by simpa using Ne.symm h4
-  have e4 : (kn.taskOptions == kn.context) = false := by simpa using Ne.symm h1
-  have e5 : (kn.context == "taskid") = false := by simpa using h3
-  have e6 : (kn.taskOptions == "taskid") = false := by simpa using h4
-  simp [taskFromDict, taskToDict, pyDict, jlookup, List.lookup, e1, e2, e3, e4, e5, e6]
-
-theorem allSome_map_some {α β} (l : List α) (f : α → Option β) (g : α → β) (h : ∀ a ∈ l, f a = some (g a)) :
-    allSome (l.map f) = some (l.map g) := by
-  induction l with
-  | nil => rfl
-  | cons a t ih =>
-    simp only [List.map_cons, allSome]
-    rw [h a (by simp)]
-    simp only [allSome]
-    rw [ih (fun b hb => h b (by simp [hb]))]
-    rfl
-
-theorem pyDict4 (k1 k2 k3 k4 : String) (v1 v2 v3 v4 : J)
-    (h12 : k1 ≠ k2) (h13 : k1 ≠ k3) (h14 : k1 ≠ k4) (h23 : k2 ≠ k3) (h24 : k2 ≠ k4) (h34 : k3 ≠ k4) :
-    pyDict [(k1, v1), (k2, v2), (k3, v3), (k4, v4)] = [(k1, v1), (k2, v2), (k3, v3), (k4, v4)] := by
-  simp [pyDict, h12, h13, h14, h23, h24, h34]
-
-/-- `from_dict (to_dict m) = m` for any non-colliding key names -/
-theorem fromDict_toDict (kn : KeyNames) (hk : kn.ok) (m : Manager) :
-    fromDict kn (toDict kn m) = some m := by
-  have hk' := hk
-  obtain ⟨_, h2, _, _, h5, h6, h7, h8⟩ := hk
-  have htasks : allSome ((List.range m.tasks.length).map fun i =>
-        taskFromDict kn (pyDict (taskToDict kn i m.context (m.tasks[i]?.getD [])))) = some m.tasks := by
-    rw [allSome_map_some _ _ (fun i => m.tasks[i]?.getD []) (fun i _ => taskFromDict_taskToDict kn hk' _ _ _)]
-    congr 1
-    apply List.ext_getElem
-    · simp
-    · intro i h1 h2; simp [h2]
-  unfold toDict
-  rw [pyDict4 _ _ _ _ _ _ _ _ (Ne.symm h5) (Ne.symm h7) (by decide) h2 h6 h8]
-  simp only [fromDict, jlookup, List.lookup, List.map_map, Function.comp_def]
-  have e1 : (kn.context == "name") = false := by simpa using h5
-  have e2 : (kn.managerOptions == "name") = false := by simpa using h7
-  have e3 : (kn.managerOptions == kn.context) = false := by simpa using Ne.symm h2
-  have e4 : ("tasks" == kn.context) = false := by simpa using Ne.symm h6
-  have e5 : ("tasks" == kn.managerOptions) = false := by simpa using Ne.symm h8
-  simp only [e1, e2, e3, e4, e5, beq_self_eq_true]
-  have e6 : ("tasks" == "name") = false := by decide
-  simp only [e6, List.map_map, Function.comp_def, htasks]
-
-theorem lookup_all_refl {β : Type} [BEq β] [LawfulBEq β] (d : List (String × β))
-    (h : (d.map (·.1)).Nodup) : (d.all fun kv => d.lookup kv.1 == some kv.2) = true := by
-  induction d with
-  | nil => rfl
-  | cons kv t ih =>
-    simp only [List.map_cons, List.nodup_cons] at h
-    simp only [List.all_cons, List.lookup, beq_self_eq_true, Bool.true_and]
-    rw [List.all_eq_true]
-    intro x hx
-    have hne : x.1 ≠ kv.1 := fun he => h.1 (he ▸ List.mem_map_of_mem hx)
-    have : (x.1 == kv.1) = false := by simpa using hne
-    simp only [this]
-    have := ih h.2
-    rw [List.all_eq_true] at this
-    exact this x hx
-
-theorem dictSub_refl (d : Dict) (h : (d.map (·.1)).Nodup) : dictSub d d = true :=
-  lookup_all_refl d h
-
-theorem zip_self_all (ts : List Dict) (ht : ∀ t ∈ ts, (t.map (·.1)).Nodup) :
-    ((ts.zip ts).all fun p => dictEq p.1 p.2) = true := by
-  induction ts with
-  | nil => rfl
-  | cons a t ih =>
-    simp only [List.zip_cons_cons, List.all_cons, Bool.and_eq_true]
-    refine ⟨?_, ih (fun x hx => ht x (by simp [hx]))⟩
-    simp only [dictEq, beq_self_eq_true, Bool.true_and]
-    exact dictSub_refl _ (ht a (by simp))
-
-theorem mEq_refl (m : Manager)
-    (hc : (m.context.map (·.1)).Nodup) (ho : (m.options.map (·.1)).Nodup)
-    (ht : ∀ t ∈ m.tasks, (t.map (·.1)).Nodup) : mEq m m = true := by
-  simp only [mEq, Bool.and_eq_true, beq_self_eq_true, and_true]
-  exact ⟨⟨dictSub_refl _ hc, lookup_all_refl _ ho⟩, zip_self_all _ ht⟩
-
-/-- a manager rebuilt from its dictionary compares equal to the original in both directions
-(dictionaries have unique keys, as python dictionaries do) -/
-theorem roundtrip_eq_both (kn : KeyNames) (hk : kn.ok) (m : Manager)
-    (hc : (m.context.map (·.1)).Nodup) (ho : (m.options.map (·.1)).Nodup)
-    (ht : ∀ t ∈ m.tasks, (t.map (·.1)).Nodup) :
-    ∃ m', fromDict kn (toDict kn m) = some m' ∧ mEq m m' = true ∧ mEq m' m = true :=
-  ⟨m, fromDict_toDict kn hk m, mEq_refl m hc ho ht, mEq_refl m hc ho ht⟩
-
-/-- colliding key names do break the round trip (why `KeyNames.ok` is required): with
-`context` and manager `options` exported under one key the context is lost -/
-theorem roundtrip_fails_on_collision :
-    fromDict ⟨"x", "options", "x"⟩ (toDict ⟨"x", "options", "x"⟩
-      { name := "m", context := [("a", "1")], options := [], tasks := [] }) = none := by
+/-- ... and that hypothesis is needed: a value given twice makes every combination with it appear twice -/
+theorem product_repeats_counterexample :
+    ¬ (product [[.int 1, .int 1], [.str "a"]]).Nodup ∧ (product [[.int 1, .int 1], [.str "a"]]).length = 2 := by
   decide
-
-
-/-! ### the property stated for a cartesian-product manager as a whole -/
-
-theorem lookup_zip_nodup (keys : List String) (c : List Val) (hn : keys.Nodup) (j : Nat) (hj : j < keys.length)
-    (hl : c.length = keys.length) (val : Val) :
-    (keys.zip c).lookup keys[j] = some val ↔ c[j]? = some val := by
-  induction keys generalizing c j with
-  | nil => simp at hj
-  | cons k ks ih =>
-    cases c with
-    | nil => simp at hl
-    | cons v vs =>
-      cases j with
-      | zero => simp [List.lookup_cons]
-      | succ j =>
-        have hne : (ks[j]'(by simpa using hj) == k) = false := by
-          have := (List.nodup_cons.mp hn).1
-          have hm : ks[j]'(by simpa using hj) ∈ ks := List.getElem_mem _
-          simp only [beq_eq_false_iff_ne, ne_eq]
-          intro h
-          exact this (h ▸ hm)
-        simp only [List.zip_cons_cons, List.getElem_cons_succ, List.lookup_cons, hne, List.getElem?_cons_succ]
-        exact ih vs (List.nodup_cons.mp hn).2 j (by simpa using hj) (by simpa using hl)
-
 
 theorem product_mem_length (ls : List (List Val)) (t : List Val) (h : t ∈ product ls) : t.length = ls.length :=
   ((mem_product ls t).mp h).length_eq
 
+/-- position `a * |product rest| + b` of the product holds the `a`-th value of the first list followed by the
+`b`-th combination of the others: the last option varies fastest -/
+theorem product_cons_getElem? (vs : List Val) (rest : List (List Val)) (a b : Nat) (hb : b < (product rest).length) :
+    (product (vs :: rest))[a * (product rest).length + b]? =
+      (vs[a]?).bind fun v => ((product rest)[b]?).map (v :: ·) := by
+  induction vs generalizing a with
+  | nil => simp [product]
+  | cons v vs ih =>
+    simp only [product, List.flatMap_cons]
+    cases a with
+    | zero =>
+      simp only [Nat.zero_mul, Nat.zero_add, List.getElem?_cons_zero, Option.bind_some]
+      rw [List.getElem?_append_left (by simpa using hb)]
+      simp
+    | succ a =>
+      rw [List.getElem?_append_right (by simp; nlinarith)]
+      simp only [List.length_map, List.getElem?_cons_succ]
+      have : (a + 1) * (product rest).length + b - (product rest).length = a * (product rest).length + b := by
+        rw [Nat.add_mul]; omega
+      rw [this]
+      exact ih a
+
+/-! ### from_cartesian_product -/
+
+/-- an accepted call (every option a scalar or an iterable): the options become the dictionary of the value lists
+(keys unique, insertion order) and the tasks are rebuilt from them; name and context are untouched -/
+theorem cartesian_accepts (m : Manager) (args : List (String × OptArg)) (lists : List (List Val))
+    (h : args.map (·.2.toList?) = lists.map some) :
+    m.cartesian args = ({ m with options := dictOf ((args.map (·.1)).zip lists),
+                                 tasks := tasksOf (dictOf ((args.map (·.1)).zip lists)) }, true) := by
+  unfold Manager.cartesian
+  rw [fillOptions_ok args lists [] h]
+  rfl
+
+/-- a rejected call (an option that is neither a scalar nor iterable): the options hold what was read before the bad
+one, and the tasks, the name and the context are the OLD ones -/
+theorem cartesian_rejects (m : Manager) (pre post : List (String × OptArg)) (k : String) (lists : List (List Val))
+    (h : pre.map (·.2.toList?) = lists.map some) :
+    m.cartesian (pre ++ (k, .notIterable) :: post)
+      = ({ m with options := dictOf ((pre.map (·.1)).zip lists) }, false) := by
+  unfold Manager.cartesian
+  rw [fillOptions_reject pre post k lists [] h]
+  rfl
+
+/-- a call is accepted exactly when no option is of the rejected kind -/
+theorem cartesian_accepted_iff (m : Manager) (args : List (String × OptArg)) :
+    (m.cartesian args).2 = true ↔ ∀ kv ∈ args, kv.2 ≠ .notIterable := by
+  constructor
+  · intro h kv hkv hc
+    obtain ⟨pre, post, rfl⟩ := List.append_of_mem hkv
+    rcases kv with ⟨k, a⟩
+    simp only at hc
+    subst hc
+    -- split `pre` at its first rejected option
+    induction pre generalizing m with
+    | nil => simp [Manager.cartesian, fillOptions, OptArg.toList?] at h
+    | cons kv' rest ih =>
+      rcases kv' with ⟨k', a'⟩
+      cases ha : a'.toList? with
+      | none => simp [Manager.cartesian, fillOptions, ha] at h
+      | some l =>
+        clear ih
+        -- the whole list of options contains a rejected one: fillOptions returns false whatever the accumulator
+        have key : ∀ (args : List (String × OptArg)) acc, (∃ kv ∈ args, kv.2 = OptArg.notIterable) → (fillOptions args acc).2 = false := by
+          intro args
+          induction args with
+          | nil => simp
+          | cons x xs ihx =>
+            intro acc hex
+            rcases x with ⟨kx, ax⟩
+            cases hax : ax.toList? with
+            | none => simp [fillOptions, hax]
+            | some lx =>
+              simp only [fillOptions, hax]
+              apply ihx
+              obtain ⟨kv, hkv, hkv2⟩ := hex
+              rcases List.mem_cons.mp hkv with rfl | hin
+              · simp only at hkv2; subst hkv2; simp [OptArg.toList?] at hax
+              · exact ⟨kv, hin, hkv2⟩
+        have := key ((k', a') :: rest ++ (k, OptArg.notIterable) :: post) [] ⟨(k, .notIterable), by simp, rfl⟩
+        unfold Manager.cartesian at h
+        split at h
+        · rename_i opts heq; rw [heq] at this; simp at this
+        · simp at h
+  · intro h
+    have : ∃ lists : List (List Val), args.map (·.2.toList?) = lists.map some := by
+      induction args with
+      | nil => exact ⟨[], rfl⟩
+      | cons kv rest ih =>
+        obtain ⟨ls, hls⟩ := ih (fun x hx => h x (by simp [hx]))
+        have h1 := h kv (by simp)
+        cases ha : kv.2 with
+        | bare v => exact ⟨[v] :: ls, by rw [List.map_cons, List.map_cons, hls, ha]; rfl⟩
+        | many vs => exact ⟨vs :: ls, by rw [List.map_cons, List.map_cons, hls, ha]; rfl⟩
+        | notIterable => exact absurd ha h1
+    obtain ⟨lists, hl⟩ := this
+    rw [cartesian_accepts m args lists hl]
+
+/-- `fromCartesianArgs` is the cartesian-product manager of the dictionary of value lists; with distinct option names
+(python keyword arguments) that dictionary is the list of options as given -/
+theorem fromCartesianArgs_eq (name : String) (ctx : Dict) (args : List (String × OptArg)) (lists : List (List Val))
+    (h : args.map (·.2.toList?) = lists.map some) :
+    fromCartesianArgs name ctx args = fromCartesian name (dictOf ctx) (dictOf ((args.map (·.1)).zip lists)) := by
+  unfold fromCartesianArgs
+  rw [cartesian_accepts _ args lists h]
+  rfl
+
+theorem fromCartesianArgs_eq_of_nodup (name : String) (ctx : Dict) (args : List (String × OptArg)) (lists : List (List Val))
+    (h : args.map (·.2.toList?) = lists.map some) (hk : (args.map (·.1)).Nodup) :
+    fromCartesianArgs name ctx args = fromCartesian name (dictOf ctx) ((args.map (·.1)).zip lists) := by
+  rw [fromCartesianArgs_eq name ctx args lists h, dictOf_eq_self ((args.map (·.1)).zip lists)]
+  have hl : lists.length = args.length := by
+    have := congrArg List.length h; simpa using this.symm
+  rw [List.map_fst_zip (by simp [hl])]
+  exact hk
+
+/-- the number of tasks of a cartesian-product manager -/
+theorem fromCartesian_ntasks (name : String) (ctx : Dict) (opts : List (String × List Val)) :
+    (fromCartesian name ctx opts).tasks.length = ((opts.map (·.2)).map List.length).prod := by
+  simp [fromCartesian, tasksOf, product_length]
+
 /-- every task of a cartesian-product manager has exactly the option names as keys, in insertion order -/
 theorem fromCartesian_task_keys (name : String) (ctx : Dict) (opts : List (String × List Val)) (t : Dict)
     (h : t ∈ (fromCartesian name ctx opts).tasks) : t.map (·.1) = opts.map (·.1) := by
-  simp only [fromCartesian, List.mem_map] at h
+  simp only [fromCartesian, tasksOf, List.mem_map] at h
   obtain ⟨c, hc, rfl⟩ := h
   have hl := product_mem_length _ _ hc
   rw [List.map_fst_zip]
@@ -372,7 +547,7 @@ theorem fromCartesian_task_values (name : String) (ctx : Dict) (opts : List (Str
   constructor
   · intro h
     refine ⟨fromCartesian_task_keys name ctx opts t h, ?_⟩
-    simp only [fromCartesian, List.mem_map] at h
+    simp only [fromCartesian, tasksOf, List.mem_map] at h
     obtain ⟨c, hc, rfl⟩ := h
     have hl := product_mem_length _ _ hc
     rw [List.map_snd_zip]
@@ -380,7 +555,7 @@ theorem fromCartesian_task_values (name : String) (ctx : Dict) (opts : List (Str
     · simp only [List.length_map] at hl ⊢
       omega
   · rintro ⟨hk, hv⟩
-    simp only [fromCartesian, List.mem_map]
+    simp only [fromCartesian, tasksOf, List.mem_map]
     refine ⟨t.map (·.2), (mem_product _ _).mpr hv, ?_⟩
     rw [← hk]
     exact (List.zip_of_prod rfl rfl).symm
@@ -388,7 +563,7 @@ theorem fromCartesian_task_values (name : String) (ctx : Dict) (opts : List (Str
 /-- every combination of option values is a task exactly once (option value lists without repeats) -/
 theorem fromCartesian_tasks_nodup (name : String) (ctx : Dict) (opts : List (String × List Val))
     (h : ∀ kv ∈ opts, kv.2.Nodup) : (fromCartesian name ctx opts).tasks.Nodup := by
-  simp only [fromCartesian]
+  simp only [fromCartesian, tasksOf]
   refine (product_nodup _ ?_).map_on ?_
   · intro l hl
     obtain ⟨kv, hkv, rfl⟩ := List.mem_map.mp hl
@@ -401,79 +576,622 @@ theorem fromCartesian_tasks_nodup (name : String) (ctx : Dict) (opts : List (Str
     · simp only [List.length_map] at lb ⊢; omega
     · simp only [List.length_map] at la ⊢; omega
 
-/-- `find` answers with an increasing list of task numbers -/
-theorem find_sorted (m : Manager) (key : String) (val : Val) (l : List Nat) (h : find m key val = some l) :
-    l.Pairwise (· < ·) := by
-  unfold find at h
-  split at h
-  · cases h
-  · cases h
-    exact List.Pairwise.filter _ List.pairwise_lt_range
+/-- a scalar given bare is the one-value list -/
+theorem fromCartesianArgs_bare (name : String) (ctx : Dict) (pre post : List (String × OptArg)) (k : String) (v : Val) :
+    fromCartesianArgs name ctx (pre ++ (k, .bare v) :: post) = fromCartesianArgs name ctx (pre ++ (k, .many [v]) :: post) := by
+  have key : ∀ acc, fillOptions (pre ++ (k, .bare v) :: post) acc = fillOptions (pre ++ (k, .many [v]) :: post) acc := by
+    induction pre with
+    | nil => intro acc; simp [fillOptions, OptArg.toList?]
+    | cons kv rest ih =>
+      intro acc
+      rcases kv with ⟨k', a⟩
+      simp only [List.cons_append, fillOptions]
+      cases a.toList? with
+      | none => rfl
+      | some l => exact ih _
+  simp only [fromCartesianArgs, Manager.cartesian, key]
 
-/-- the round trip for a cartesian-product manager: unique option names and unique context keys (python
-dictionaries) are all that is needed, for any number of options and values and any non-colliding key names -/
-theorem roundtrip_cartesian (kn : KeyNames) (hk : kn.ok) (name : String) (ctx : Dict)
-    (opts : List (String × List Val)) (hc : (ctx.map (·.1)).Nodup) (ho : (opts.map (·.1)).Nodup) :
-    ∃ m', fromDict kn (toDict kn (fromCartesian name ctx opts)) = some m' ∧
-      mEq (fromCartesian name ctx opts) m' = true ∧ mEq m' (fromCartesian name ctx opts) = true := by
-  refine roundtrip_eq_both kn hk _ hc ho ?_
-  intro t ht
-  rw [fromCartesian_task_keys name ctx opts t ht]
-  exact ho
+theorem fromCartesianArgs_ntasks (name : String) (ctx : Dict) (args : List (String × OptArg)) (lists : List (List Val))
+    (h : args.map (·.2.toList?) = lists.map some) (hk : (args.map (·.1)).Nodup) :
+    (fromCartesianArgs name ctx args).tasks.length = (lists.map List.length).prod := by
+  rw [fromCartesianArgs_eq_of_nodup name ctx args lists h hk, fromCartesian_ntasks]
+  have hl : lists.length = args.length := by
+    have := congrArg List.length h; simpa using this.symm
+  rw [List.map_snd_zip (by simp [hl])]
+
+
+
+/-! ### find -/
+
+/-- `find(**crit)` on a manager whose tasks all carry the requested options: the increasing list of the numbers of
+the tasks on which every criterion matches (through `str`, brackets removed, `.` matching any character) -/
+theorem mem_find (m : Manager) (crit : List (String × Val))
+    (ho : ∀ kv ∈ crit, (m.options.lookup kv.1).isSome) (ht : ∀ t ∈ m.tasks, ∀ kv ∈ crit, (t.lookup kv.1).isSome) :
+    ∃ l, find m crit = .ok l ∧ l.Pairwise (· < ·) ∧
+      ∀ i, i ∈ l ↔ ∃ t, m.tasks[i]? = some t ∧ ∀ kv ∈ crit, ∃ tv, t.lookup kv.1 = some tv ∧ valMatch kv.2 tv = true := by
+  unfold find
+  rw [findLoop_ok m.options crit m.tasks 0 ho ht]
+  refine ⟨_, rfl, ?_, ?_⟩
+  · simp only [Nat.add_zero, List.map_id']
+    exact List.Pairwise.filter _ List.pairwise_lt_range
+  · intro i
+    simp only [Nat.add_zero, List.map_id', List.mem_filter, List.mem_range]
+    constructor
+    · rintro ⟨hi, hp⟩
+      cases hti : m.tasks[i]? with
+      | none => simp [hti] at hp
+      | some t =>
+        simp only [hti] at hp
+        exact ⟨t, rfl, (critHolds_iff crit t).mp hp⟩
+    · rintro ⟨t, hti, hp⟩
+      have hi : i < m.tasks.length := by
+        by_contra hc
+        rw [List.getElem?_eq_none (by omega)] at hti
+        cases hti
+      exact ⟨hi, by simp only [hti]; exact (critHolds_iff crit t).mpr hp⟩
+
+/-- a key that is not an option is rejected as soon as there is a task to look at ... -/
+theorem find_unknown_key (m : Manager) (crit : List (String × Val)) (hne : m.tasks ≠ [])
+    (hk : ∃ kv ∈ crit, m.options.lookup kv.1 = none) : ∃ e, find m crit = .error e := by
+  unfold find
+  cases hts : m.tasks with
+  | nil => exact absurd hts hne
+  | cons t rest =>
+    obtain ⟨e, he⟩ := critMatch_unknown m.options t crit hk
+    simp only [findLoop, he]
+    exact ⟨e, rfl⟩
+
+/-- ... and not at all when there is none: the assertion sits inside the loop over the tasks -/
+theorem find_no_task (m : Manager) (crit : List (String × Val)) (h : m.tasks = []) : find m crit = .ok [] := by
+  simp [find, h, findLoop]
+
+/-- on values of the property's quantifier (integers, identifier-like strings) a criterion matches exactly the equal value -/
+theorem valMatch_quant (v tv : Val) (hv : v.quant = true) (ht : tv.quant = true) : valMatch v tv = true ↔ v = tv := by
+  have plain_of : ∀ w : Val, w.quant = true → w.plain = true := by
+    intro w hw
+    cases w with
+    | int i => exact int_plain i
+    | str s => simp only [Val.quant, Bool.and_eq_true] at hw; exact hw.2
+    | flt r => simp [Val.quant] at hw
+    | other r => simp [Val.quant] at hw
+  rw [valMatch_plain v tv (plain_of v hv) (plain_of tv ht)]
+  constructor
+  · intro h
+    cases v with
+    | int i =>
+      cases tv with
+      | int j => rw [toStr_inj_int i j h]
+      | str s =>
+        simp only [Val.quant, Bool.and_eq_true] at ht
+        exact absurd h (toStr_inj_int_str i s (toInt?_none_of_alpha s ht.1))
+      | flt r => simp [Val.quant] at ht
+      | other r => simp [Val.quant] at ht
+    | str s =>
+      cases tv with
+      | int j =>
+        simp only [Val.quant, Bool.and_eq_true] at hv
+        exact absurd h.symm (toStr_inj_int_str j s (toInt?_none_of_alpha s hv.1))
+      | str s' => simp only [Val.toStr] at h; rw [h]
+      | flt r => simp [Val.quant] at ht
+      | other r => simp [Val.quant] at ht
+    | flt r => simp [Val.quant] at hv
+    | other r => simp [Val.quant] at hv
+  · intro h; rw [h]
+
+/-- the hypothesis is needed: outside the quantifier's alphabet `find` over-matches. A `.` in the requested value
+matches any character, a string that reads as an integer is that integer, brackets are dropped. -/
+theorem valMatch_counterexamples :
+    valMatch (.flt "1.5") (.int 105) = true ∧ valMatch (.int 1) (.str "1") = true ∧ valMatch (.str "a1") (.str "a[1]") = true := by
+  decide
 
 /-- `find(key = val)` on a cartesian-product manager returns exactly the numbers of the combinations whose
-component for `key` equals `val` (position `j` of `key` among the option names) -/
+component for `key` matches `val` (position `j` of `key` among the option names) -/
 theorem find_cartesian (name : String) (ctx : Dict) (opts : List (String × List Val))
-    (ho : (opts.map (·.1)).Nodup) (j : Nat) (hj : j < opts.length) (val : Val) (i : Nat) :
-    ∃ l, find (fromCartesian name ctx opts) (opts[j]).1 val = some l ∧
-      (i ∈ l ↔ ∃ c, (product (opts.map (·.2)))[i]? = some c ∧ c[j]? = some val) := by
-  have hkey : ((fromCartesian name ctx opts).options.lookup (opts[j]).1).isSome := by
-    simp only [fromCartesian]
-    rw [List.lookup_isSome_iff]
-    exact ⟨opts[j], List.getElem_mem hj, by simp⟩
-  obtain ⟨l, hl, hmem⟩ := mem_find (fromCartesian name ctx opts) (opts[j]).1 val hkey i
-  refine ⟨l, hl, hmem.trans ?_⟩
+    (ho : (opts.map (·.1)).Nodup) (j : Nat) (hj : j < opts.length) (val : Val) :
+    ∃ l, find (fromCartesian name ctx opts) [((opts[j]).1, val)] = .ok l ∧ l.Pairwise (· < ·) ∧
+      ∀ i, i ∈ l ↔ ∃ c tv, (product (opts.map (·.2)))[i]? = some c ∧ c[j]? = some tv ∧ valMatch val tv = true := by
   have hj' : j < (opts.map (·.1)).length := by simpa using hj
   have hkj : (opts.map (·.1))[j] = (opts[j]).1 := by simp
   have key : ∀ c : List Val, c.length = opts.length →
-      (((opts.map (·.1)).zip c).lookup (opts[j]).1 = some val ↔ c[j]? = some val) := by
+      ((opts.map (·.1)).zip c).lookup (opts[j]).1 = c[j]? := by
     intro c hlen
     rw [← hkj]
-    exact lookup_zip_nodup _ c ho j hj' (by simpa using hlen) val
-  simp only [fromCartesian, List.getElem?_map]
+    exact lookup_zip_nodup _ c ho j hj' (by simpa using hlen)
+  have hopt : ∀ kv ∈ [((opts[j]).1, val)], ((fromCartesian name ctx opts).options.lookup kv.1).isSome := by
+    intro kv hkv
+    simp only [List.mem_singleton] at hkv
+    subst hkv
+    simp only [fromCartesian]
+    rw [List.lookup_isSome_iff]
+    exact ⟨opts[j], List.getElem_mem hj, by simp⟩
+  have htask : ∀ t ∈ (fromCartesian name ctx opts).tasks, ∀ kv ∈ [((opts[j]).1, val)], (t.lookup kv.1).isSome := by
+    intro t ht kv hkv
+    simp only [List.mem_singleton] at hkv
+    subst hkv
+    simp only [fromCartesian, tasksOf, List.mem_map] at ht
+    obtain ⟨c, hc, rfl⟩ := ht
+    have hlen := product_mem_length _ _ hc
+    rw [key c (by simpa using hlen)]
+    rw [List.getElem?_eq_getElem (by simp at hlen; omega)]
+    rfl
+  obtain ⟨l, hl, hsorted, hmem⟩ := mem_find (fromCartesian name ctx opts) [((opts[j]).1, val)] hopt htask
+  refine ⟨l, hl, hsorted, fun i => (hmem i).trans ?_⟩
+  simp only [fromCartesian, tasksOf, List.getElem?_map, List.mem_singleton, forall_eq]
   constructor
-  · rintro ⟨t, ht, hv⟩
+  · rintro ⟨t, hti, tv, hlk, hv⟩
     cases hc : (product (opts.map (·.2)))[i]? with
-    | none => simp [hc] at ht
+    | none => simp [hc] at hti
     | some c =>
-      simp only [hc, Option.map_some, Option.some.injEq] at ht
-      subst ht
+      simp only [hc, Option.map_some, Option.some.injEq] at hti
+      subst hti
       have hlen := product_mem_length _ _ (List.mem_of_getElem? hc)
-      exact ⟨c, rfl, (key c (by simpa using hlen)).mp hv⟩
-  · rintro ⟨c, hc, hv⟩
+      rw [key c (by simpa using hlen)] at hlk
+      exact ⟨c, tv, rfl, hlk, hv⟩
+  · rintro ⟨c, tv, hc, hcj, hv⟩
     have hlen := product_mem_length _ _ (List.mem_of_getElem? hc)
-    exact ⟨_, by simp only [hc, Option.map_some], (key c (by simpa using hlen)).mpr hv⟩
+    exact ⟨_, by rw [hc]; rfl, tv, by rw [key c (by simpa using hlen)]; exact hcj, hv⟩
 
-/-- a scalar given bare is the one-value list: it multiplies the number of tasks by one and every task carries it -/
-theorem fromCartesianArgs_bare (name : String) (ctx : Dict) (pre post : List (String × OptArg)) (k : String) (v : Val) :
-    fromCartesianArgs name ctx (pre ++ (k, .bare v) :: post) = fromCartesianArgs name ctx (pre ++ (k, .many [v]) :: post) := by
-  simp [fromCartesianArgs, OptArg.toList]
+/-- ... and for option values and a requested value of the quantifier: exactly the combinations whose component EQUALS it -/
+theorem find_cartesian_exact (name : String) (ctx : Dict) (opts : List (String × List Val))
+    (ho : (opts.map (·.1)).Nodup) (j : Nat) (hj : j < opts.length) (val : Val)
+    (hq : val.quant = true) (hqs : ∀ v ∈ (opts[j]).2, v.quant = true) :
+    ∃ l, find (fromCartesian name ctx opts) [((opts[j]).1, val)] = .ok l ∧
+      ∀ i, i ∈ l ↔ ∃ c, (product (opts.map (·.2)))[i]? = some c ∧ c[j]? = some val := by
+  obtain ⟨l, hl, _, hmem⟩ := find_cartesian name ctx opts ho j hj val
+  refine ⟨l, hl, fun i => (hmem i).trans ?_⟩
+  constructor
+  · rintro ⟨c, tv, hc, hcj, hv⟩
+    have hF := (mem_product _ c).mp (List.mem_of_getElem? hc)
+    have htv : tv ∈ (opts[j]).2 :=
+      forall₂_getElem? hF j tv (opts[j]).2 hcj (by simp [hj])
+    rw [(valMatch_quant val tv hq (hqs tv htv)).mp hv]
+    exact ⟨c, hc, hcj⟩
+  · rintro ⟨c, hc, hcj⟩
+    exact ⟨c, val, hc, hcj, valMatch_refl val⟩
 
-theorem fromCartesianArgs_ntasks (name : String) (ctx : Dict) (opts : List (String × OptArg)) :
-    (fromCartesianArgs name ctx opts).tasks.length = (opts.map fun kv => kv.2.toList.length).prod := by
-  simp [fromCartesianArgs, fromCartesian_ntasks, Function.comp_def]
 
-/-! ### non-vacuity: the hypotheses are met by concrete inputs, and sample evaluations -/
 
+
+/-! ### get_task -/
+
+/-- `get_task(taskid)` is accepted exactly for `0 ≤ taskid < ntasks` -/
+theorem getTask_isSome_iff (m : Manager) (id : Int) : (getTask m id).isSome ↔ 0 ≤ id ∧ id < m.tasks.length := by
+  unfold getTask
+  split
+  · rename_i h
+    have : id.toNat < m.tasks.length := by omega
+    rw [List.getElem?_eq_getElem this]
+    simp [h]
+  · rename_i h; simp [h]
+
+/-- ... and returns the task of that number, with the manager's context -/
+theorem getTask_eq (m : Manager) (i : Nat) (o : Dict) (h : m.tasks[i]? = some o) :
+    getTask m i = some ⟨i, m.context, o⟩ := by
+  have hi : i < m.tasks.length := by
+    by_contra hc; rw [List.getElem?_eq_none (by omega)] at h; cases h
+  unfold getTask
+  rw [if_pos ⟨by omega, by exact_mod_cast hi⟩]
+  simp [h]
+
+/-- task `i` of a cartesian-product manager is the `i`-th combination of `itertools.product` -/
+theorem getTask_cartesian (name : String) (ctx : Dict) (opts : List (String × List Val)) (i : Nat) (c : List Val)
+    (h : (product (opts.map (·.2)))[i]? = some c) :
+    getTask (fromCartesian name ctx opts) i = some ⟨i, ctx, (opts.map (·.1)).zip c⟩ := by
+  apply getTask_eq
+  simp [fromCartesian, tasksOf, h]
+
+/-- `task[key]` for an option name is the component of the combination; option values come before context values -/
+theorem task_get_option (i : Nat) (ctx : Dict) (keys : List String) (c : List Val) (hn : keys.Nodup)
+    (hl : c.length = keys.length) (j : Nat) (hj : j < keys.length) :
+    (⟨i, ctx, keys.zip c⟩ : Task).get keys[j] = c[j]? := by
+  unfold Task.get
+  simp only
+  rw [lookup_zip_nodup keys c hn j hj hl, List.getElem?_eq_getElem (by omega)]
+
+theorem task_get_context (t : Task) (key : String) (h : t.options.lookup key = none) :
+    t.get key = t.context.lookup key := by
+  simp [Task.get, h]
+
+/-! ### dictionary round trip -/
+
+/-- a task dictionary gives its options back whatever the key names (the options entry is written last, and
+`from_dict` keeps nothing else) -/
+theorem taskFromDict_taskToDict (kn : KeyNames) (id : Nat) (ctx opts : Dict) :
+    taskFromDict kn (pyDict (taskToDict kn id ctx opts)) = some opts := by
+  unfold taskFromDict jlookup pyDict
+  simp only [lookup_dictOf, taskToDict, List.reverse_cons, List.reverse_nil, List.nil_append, List.cons_append,
+    List.lookup]
+  cases e1 : ("taskid" == kn.taskOptions) <;> cases e2 : ("taskid" == kn.context) <;>
+    cases e3 : (kn.context == kn.taskOptions) <;> simp
+
+/-- the exported tasks are `get_task(i).to_dict()` for `i = 0 .. ntasks-1` -/
+theorem toDict_tasks (kn : KeyNames) (m : Manager) :
+    ∃ ts, (toDict kn m).lookup "tasks" = some (.tasks ts) ∧ ts.length = m.tasks.length ∧
+      ∀ i : Nat, ts[i]? = (getTask m (i : Int)).map (Task.toDict kn) := by
+  refine ⟨m.tasks.mapIdx fun i o => pyDict (taskToDict kn i m.context o), ?_, by simp, ?_⟩
+  · unfold toDict pyDict
+    simp [lookup_dictOf, List.lookup]
+  · intro i
+    rw [List.getElem?_mapIdx]
+    cases h : m.tasks[i]? with
+    | none =>
+      unfold getTask
+      split
+      · simp [h]
+      · rfl
+    | some o => rw [getTask_eq m i o h]; rfl
+
+/-- `from_dict (to_dict m)` is `m`, up to the name when a top-level key name is `"name"` -/
+theorem fromDict_toDict_okEq (kn : KeyNames) (hk : kn.okEq) (m : Manager) :
+    ∃ nm, fromDict kn (toDict kn m) = some { m with name := nm } ∧ (kn.ok → nm = m.name) := by
+  obtain ⟨h1, h2, h3⟩ := hk
+  have htasks : allSome ((m.tasks.mapIdx fun i o => pyDict (taskToDict kn i m.context o)).map (taskFromDict kn))
+      = some m.tasks := by
+    rw [allSome_eq_some_iff]
+    apply List.ext_getElem?
+    intro i
+    simp only [List.getElem?_map, List.getElem?_mapIdx, Option.map_map]
+    cases m.tasks[i]? with
+    | none => rfl
+    | some o => simp [taskFromDict_taskToDict]
+  simp only [pyDict] at htasks
+  have e1 : ("tasks" == kn.context) = false := by simpa using Ne.symm h2
+  have e2 : ("tasks" == kn.managerOptions) = false := by simpa using Ne.symm h3
+  have e3 : (kn.context == kn.managerOptions) = false := by simpa using h1
+  have e4 : (kn.managerOptions == kn.context) = false := by simpa using Ne.symm h1
+  have e5 : (kn.context == "tasks") = false := by simpa using h2
+  have e6 : (kn.managerOptions == "tasks") = false := by simpa using h3
+  unfold fromDict toDict jlookup pyDict
+  simp only [lookup_dictOf, List.reverse_cons, List.reverse_nil, List.nil_append, List.cons_append, List.lookup,
+    e1, e2, e3, e4, e5, e6, beq_self_eq_true, htasks]
+  refine ⟨_, rfl, ?_⟩
+  rintro ⟨_, _, _, h4, h5⟩
+  have e7 : ("name" == kn.context) = false := by simpa using Ne.symm h4
+  have e8 : ("name" == kn.managerOptions) = false := by simpa using Ne.symm h5
+  simp [e7, e8]
+
+/-- `from_dict (to_dict m) = m` for key names that do not collide at the top level -/
+theorem fromDict_toDict (kn : KeyNames) (hk : kn.ok) (m : Manager) :
+    fromDict kn (toDict kn m) = some m := by
+  obtain ⟨nm, h, hn⟩ := fromDict_toDict_okEq kn ⟨hk.1, hk.2.1, hk.2.2.1⟩ m
+  rw [h, hn hk]
+
+theorem mEq_refl (m : Manager)
+    (hc : (m.context.map (·.1)).Nodup) (ho : (m.options.map (·.1)).Nodup)
+    (ht : ∀ t ∈ m.tasks, (t.map (·.1)).Nodup) : mEq m m = true := by
+  simp only [mEq, Bool.and_eq_true, beq_self_eq_true, and_true]
+  exact ⟨⟨dictSub_refl _ hc, lookup_all_refl _ ho⟩, zip_self_all _ ht⟩
+
+/-- a manager rebuilt from its dictionary compares equal to the original in both directions
+(dictionaries have unique keys, as python dictionaries do) -/
+theorem roundtrip_eq_both (kn : KeyNames) (hk : kn.okEq) (m : Manager)
+    (hc : (m.context.map (·.1)).Nodup) (ho : (m.options.map (·.1)).Nodup)
+    (ht : ∀ t ∈ m.tasks, (t.map (·.1)).Nodup) :
+    ∃ m', fromDict kn (toDict kn m) = some m' ∧ mEq m m' = true ∧ mEq m' m = true ∧ (kn.ok → m' = m) := by
+  obtain ⟨nm, h, hn⟩ := fromDict_toDict_okEq kn hk m
+  refine ⟨_, h, mEq_refl m hc ho ht, mEq_refl m hc ho ht, fun hok => ?_⟩
+  rw [hn hok]
+
+/-- the hypotheses on the key names are needed: with the context under the key of the manager options, or either
+of them under `"tasks"`, the dictionary cannot be read back; under `"name"` only the name is lost, which `==` ignores -/
+theorem roundtrip_fails_on_collision :
+    fromDict ⟨"x", "options", "x"⟩ (toDict ⟨"x", "options", "x"⟩
+      { name := "m", context := [("a", .int 1)], options := [("k", [.int 1])], tasks := [[("k", .int 1)]] }) = none ∧
+    fromDict ⟨"tasks", "options", "mo"⟩ (toDict ⟨"tasks", "options", "mo"⟩
+      { name := "m", context := [("a", .int 1)], options := [("k", [.int 1])], tasks := [[("k", .int 1)]] }) = none ∧
+    fromDict ⟨"context", "options", "tasks"⟩ (toDict ⟨"context", "options", "tasks"⟩
+      { name := "m", context := [("a", .int 1)], options := [("k", [.int 1])], tasks := [[("k", .int 1)]] }) = none ∧
+    fromDict ⟨"name", "options", "mo"⟩ (toDict ⟨"name", "options", "mo"⟩
+      { name := "m", context := [("a", .int 1)], options := [("k", [.int 1])], tasks := [[("k", .int 1)]] })
+      = some { name := "Task Manager", context := [("a", .int 1)], options := [("k", [.int 1])], tasks := [[("k", .int 1)]] } := by
+  decide
+
+/-- the round trip for a cartesian-product manager as the caller builds it (`OptionManager(name, **ctx)` then
+`from_cartesian_product(**args)`): no hypothesis beyond an accepted call and top-level key names that do not
+collide — unique keys come from the dictionaries the code itself builds -/
+theorem roundtrip_cartesian (kn : KeyNames) (hk : kn.okEq) (name : String) (ctx : Dict)
+    (args : List (String × OptArg)) (lists : List (List Val)) (h : args.map (·.2.toList?) = lists.map some) :
+    ∃ m', fromDict kn (toDict kn (fromCartesianArgs name ctx args)) = some m' ∧
+      mEq (fromCartesianArgs name ctx args) m' = true ∧ mEq m' (fromCartesianArgs name ctx args) = true ∧
+      (kn.ok → m' = fromCartesianArgs name ctx args) := by
+  rw [fromCartesianArgs_eq name ctx args lists h]
+  refine roundtrip_eq_both kn hk _ (dictOf_nodup ctx) (dictOf_nodup _) ?_
+  intro t ht
+  rw [fromCartesian_task_keys name (dictOf ctx) _ t ht]
+  exact dictOf_nodup _
+
+
+
+
+/-! ### histories: one manager object, the key names, one exported dictionary, files -/
+
+/-- the outputs of a history come one per operation, and histories compose -/
+theorem run_outputs (w : World) (a b : List Op) :
+    (run w a).2.length = a.length ∧
+    run w (a ++ b) = ((run (run w a).1 b).1, (run w a).2 ++ (run (run w a).1 b).2) := by
+  refine ⟨?_, run_append w a b⟩
+  induction a generalizing w with
+  | nil => rfl
+  | cons op rest ih => simp [run, ih]
+
+/-- no operation ever changes the name or the context of the manager -/
+theorem run_name_context (w : World) (ops : List Op) :
+    (run w ops).1.mgr.name = w.mgr.name ∧ (run w ops).1.mgr.context = w.mgr.context := by
+  induction ops generalizing w with
+  | nil => exact ⟨rfl, rfl⟩
+  | cons op rest ih =>
+    simp only [run]
+    rw [(ih _).1, (ih _).2]
+    rcases step_mgr_cases w op with h1 | ⟨args, _, h1⟩
+    · rw [h1]; exact ⟨rfl, rfl⟩
+    · rw [h1]
+      unfold Manager.cartesian
+      cases fillOptions args [] with
+      | mk opts ok => cases ok <;> exact ⟨rfl, rfl⟩
+
+/-- accessors leave the world as it is, whatever they answer -/
+theorem step_accessor (w : World) (crit : List (String × Val)) (id : Int) (path : String) :
+    (step w (.find crit)).1 = w ∧ (step w (.getTask id)).1 = w ∧ (step w .imp).1 = w ∧
+    (step w .jsn).1 = w ∧ (step w (.load path)).1 = w :=
+  ⟨rfl, rfl, rfl, rfl, rfl⟩
+
+/-- a rejected operation leaves the world as it is — except a rejected `from_cartesian_product`, see `step_cartesian_rejected` -/
+theorem step_rejected (w : World) (op : Op) (h : (step w op).2 = .err) (hc : ∀ a, op ≠ .cartesian a) :
+    (step w op).1 = w := by
+  cases op with
+  | setKey key name =>
+    simp only [step] at h ⊢
+    split at h <;> simp_all
+  | resetKeys => simp [step] at h
+  | cartesian args => exact absurd rfl (hc args)
+  | find crit => rfl
+  | getTask id => rfl
+  | exp => simp [step] at h
+  | jsn => rfl
+  | imp => rfl
+  | save path ow => simp only [step] at h; split at h <;> simp at h
+  | load path => rfl
+
+/-- a rejected `from_cartesian_product` (an option that is neither a scalar nor iterable): the options hold what was
+read before the bad one; the tasks, the name, the context, the key names, the exported dictionary and the files
+are untouched -/
+theorem step_cartesian_rejected (w : World) (pre post : List (String × OptArg)) (k : String) (lists : List (List Val))
+    (h : pre.map (·.2.toList?) = lists.map some) :
+    step w (.cartesian (pre ++ (k, .notIterable) :: post))
+      = ({ w with mgr := { w.mgr with options := dictOf ((pre.map (·.1)).zip lists) } }, .err) := by
+  simp only [step, cartesian_rejects w.mgr pre post k lists h]
+
+/-- `set_dict_keyname` accepts exactly the three documented keys -/
+theorem step_setKey (w : World) (key name : String) :
+    (step w (.setKey key name)).2 = .ok ↔ key = "context_name" ∨ key = "task_options_name" ∨ key = "manager_options_name" := by
+  simp only [step, KeyNames.set]
+  split_ifs with h1 h2 h3 <;> simp_all
+
+/-- after ANY history, the manager is the cartesian-product manager of the last accepted grid: regenerating the grid
+leaves nothing of the earlier ones, and nothing that happens afterwards (find, get_task, exports, imports, files,
+key names, rejected calls of those) touches it -/
+theorem history_mgr (name : String) (ctx : Dict) (ops rest : List Op) (args : List (String × OptArg))
+    (lists : List (List Val)) (h : args.map (·.2.toList?) = lists.map some)
+    (hrest : ∀ op ∈ rest, ∀ a, op ≠ .cartesian a) :
+    (run (World.init name ctx) (ops ++ .cartesian args :: rest)).1.mgr = fromCartesianArgs name ctx args := by
+  rw [(run_outputs _ ops _).2]
+  simp only [run]
+  rw [run_mgr_of_no_cartesian _ rest hrest]
+  have hnc := run_name_context (World.init name ctx) ops
+  simp only [step, cartesian_accepts _ args lists h]
+  rw [fromCartesianArgs_eq name ctx args lists h]
+  simp only [fromCartesian, hnc.1, hnc.2]
+  rfl
+
+/-- ... so `find` and `get_task`, at any later point, answer about that grid -/
+theorem history_answers (name : String) (ctx : Dict) (ops rest : List Op) (args : List (String × OptArg))
+    (lists : List (List Val)) (h : args.map (·.2.toList?) = lists.map some)
+    (hrest : ∀ op ∈ rest, ∀ a, op ≠ .cartesian a) (crit : List (String × Val)) (id : Int) :
+    (run (World.init name ctx) (ops ++ .cartesian args :: rest ++ [.find crit])).2.getLast?
+      = some (match find (fromCartesianArgs name ctx args) crit with | .ok l => .ids l | .error _ => .err) ∧
+    (run (World.init name ctx) (ops ++ .cartesian args :: rest ++ [.getTask id])).2.getLast?
+      = some (match getTask (fromCartesianArgs name ctx args) id with | some t => .task t | none => .err) := by
+  have hm := history_mgr name ctx ops rest args lists h hrest
+  constructor
+  · have e : ops ++ Op.cartesian args :: rest ++ [Op.find crit] = (ops ++ Op.cartesian args :: rest) ++ [Op.find crit] := by simp
+    rw [e, (run_outputs _ _ _).2]
+    simp only [run, step, List.getLast?_append, List.getLast?_singleton, Option.some_or]
+    rw [hm]
+    cases find (fromCartesianArgs name ctx args) crit <;> rfl
+  · have e : ops ++ Op.cartesian args :: rest ++ [Op.getTask id] = (ops ++ Op.cartesian args :: rest) ++ [Op.getTask id] := by simp
+    rw [e, (run_outputs _ _ _).2]
+    simp only [run, step, List.getLast?_append, List.getLast?_singleton, Option.some_or]
+    rw [hm]
+    cases getTask (fromCartesianArgs name ctx args) id <;> rfl
+
+/-- after ANY history, every dictionary of the manager has unique keys, whatever was accepted or rejected on the way -/
+theorem history_unique_keys (name : String) (ctx : Dict) (ops : List Op) :
+    let m := (run (World.init name ctx) ops).1.mgr
+    (m.context.map (·.1)).Nodup ∧ (m.options.map (·.1)).Nodup ∧ ∀ t ∈ m.tasks, (t.map (·.1)).Nodup :=
+  run_inv _ ops (init_inv name ctx)
+
+/-- at ANY point of ANY history: export the manager, then do anything that does not regenerate the grid, rename keys or
+export again — find, get_task, json, files, and reading the exported dictionary any number of times: EVERY reading
+gives a manager equal to the original in both directions (the manager itself when no top-level key name is `"name"`) -/
+theorem history_roundtrip (name : String) (ctx : Dict) (ops reads : List Op)
+    (hk : (run (World.init name ctx) ops).1.kn.okEq)
+    (hreads : ∀ op ∈ reads, (∀ a, op ≠ .cartesian a) ∧ (∀ k n, op ≠ .setKey k n) ∧ op ≠ .resetKeys ∧ op ≠ .exp) :
+    ∃ m', mEq (run (World.init name ctx) ops).1.mgr m' = true ∧ mEq m' (run (World.init name ctx) ops).1.mgr = true ∧
+      ((run (World.init name ctx) ops).1.kn.ok → m' = (run (World.init name ctx) ops).1.mgr) ∧
+      ∀ p ∈ reads.zip (run (step (run (World.init name ctx) ops).1 .exp).1 reads).2, p.1 = .imp → p.2 = .mgr m' := by
+  have hinv := history_unique_keys name ctx ops
+  generalize (run (World.init name ctx) ops).1 = w at *
+  obtain ⟨m', hm', e1, e2, e3⟩ := roundtrip_eq_both w.kn hk w.mgr hinv.1 hinv.2.1 hinv.2.2
+  refine ⟨m', e1, e2, e3, ?_⟩
+  have key : ∀ (w' : World), w'.kn = w.kn → w'.reg = some (toDict w.kn w.mgr) →
+      ∀ p ∈ reads.zip (run w' reads).2, p.1 = .imp → p.2 = .mgr m' := by
+    induction reads with
+    | nil => intro w' _ _ p hp; simp [run] at hp
+    | cons op rest ih =>
+      intro w' hkn hreg p hp himp
+      obtain ⟨h1, h2, h3, h4⟩ := hreads op (by simp)
+      simp only [run, List.zip_cons_cons, List.mem_cons] at hp
+      have hstep : (step w' op).1.kn = w.kn ∧ (step w' op).1.reg = some (toDict w.kn w.mgr) := by
+        cases op with
+        | setKey key nm => exact absurd rfl (h2 key nm)
+        | resetKeys => exact absurd rfl h3
+        | cartesian args => exact absurd rfl (h1 args)
+        | find crit => exact ⟨hkn, hreg⟩
+        | getTask id => exact ⟨hkn, hreg⟩
+        | exp => exact absurd rfl h4
+        | jsn => exact ⟨hkn, hreg⟩
+        | imp => exact ⟨hkn, hreg⟩
+        | save path ow => simp only [step]; split <;> exact ⟨hkn, hreg⟩
+        | load path => exact ⟨hkn, hreg⟩
+      rcases hp with rfl | hp
+      · simp only at himp
+        subst himp
+        simp only [step, readDoc, hreg, hkn, hm']
+      · exact ih (fun x hx => hreads x (by simp [hx])) _ hstep.1 hstep.2 p hp himp
+  exact key _ rfl rfl
+
+/-- `save` then `from_file`: a fresh path or `overwrite=True` stores the manager and it comes back equal in both
+directions; an existing file is kept as it is without `overwrite` -/
+theorem history_save_load (name : String) (ctx : Dict) (ops : List Op) (path : String) (ow : Bool)
+    (hk : (run (World.init name ctx) ops).1.kn.okEq) :
+    ((run (World.init name ctx) ops).1.files.lookup path = none ∨ ow = true →
+      ∃ m', (run (run (World.init name ctx) ops).1 [.save path ow, .load path]).2 = [.ok, .mgr m'] ∧
+        mEq (run (World.init name ctx) ops).1.mgr m' = true ∧ mEq m' (run (World.init name ctx) ops).1.mgr = true) ∧
+    (((run (World.init name ctx) ops).1.files.lookup path).isSome → ow = false →
+      step (run (World.init name ctx) ops).1 (.save path ow) = ((run (World.init name ctx) ops).1, .ok)) := by
+  have hinv := history_unique_keys name ctx ops
+  generalize (run (World.init name ctx) ops).1 = w at *
+  constructor
+  · intro hfresh
+    obtain ⟨m', hm', e1, e2, _⟩ := roundtrip_eq_both w.kn hk w.mgr hinv.1 hinv.2.1 hinv.2.2
+    refine ⟨m', ?_, e1, e2⟩
+    have hcond : ((w.files.lookup path).isSome && !ow) = false := by
+      rcases hfresh with h | h <;> simp [h]
+    simp only [run, step, hcond, Bool.false_eq_true, if_false, readDoc, lookup_dictSet, if_true, hm']
+  · intro hex how
+    subst how
+    simp [step, hex]
+
+/-- every file ever written holds the export of a manager state the history went through (under the key names in
+force at that moment): nothing else is ever stored, nothing is stored by an operation other than `save` -/
+theorem history_files_sound (name : String) (ctx : Dict) (ops : List Op) (p : String) (d : Doc)
+    (h : (run (World.init name ctx) ops).1.files.lookup p = some d) :
+    ∃ pre, pre <+: ops ∧ d = toDict (run (World.init name ctx) pre).1.kn (run (World.init name ctx) pre).1.mgr := by
+  induction ops using List.reverseRecOn generalizing d with
+  | nil => simp [run, World.init] at h
+  | append_singleton init op ih =>
+    rw [(run_outputs _ init [op]).2] at h
+    simp only [run] at h
+    have hfiles : (step (run (World.init name ctx) init).1 op).1.files = (run (World.init name ctx) init).1.files ∨
+        ∃ path ow, op = .save path ow ∧ (step (run (World.init name ctx) init).1 op).1.files
+          = dictSet (run (World.init name ctx) init).1.files path
+              (toDict (run (World.init name ctx) init).1.kn (run (World.init name ctx) init).1.mgr) := by
+      generalize (run (World.init name ctx) init).1 = w
+      cases op with
+      | setKey key name => left; simp only [step]; split <;> rfl
+      | resetKeys => left; rfl
+      | cartesian args =>
+        left; simp only [step]
+        cases w.mgr.cartesian args with
+        | mk m ok => cases ok <;> rfl
+      | find crit => left; rfl
+      | getTask id => left; rfl
+      | exp => left; rfl
+      | jsn => left; rfl
+      | imp => left; rfl
+      | save path ow =>
+        simp only [step]
+        split
+        · left; rfl
+        · right; exact ⟨path, ow, rfl, rfl⟩
+      | load path => left; rfl
+    rcases hfiles with hf | ⟨path, ow, rfl, hf⟩
+    · rw [hf] at h
+      obtain ⟨pre, hpre, hd⟩ := ih d h
+      exact ⟨pre, hpre.trans (List.prefix_append _ _), hd⟩
+    · rw [hf, lookup_dictSet] at h
+      split at h
+      · cases h
+        exact ⟨init, List.prefix_append _ _, rfl⟩
+      · obtain ⟨pre, hpre, hd⟩ := ih d h
+        exact ⟨pre, hpre.trans (List.prefix_append _ _), hd⟩
+
+
+/-! ### non-vacuity: every hypothesis is met by a concrete, non-trivial input; sample evaluations -/
+
+-- get_batch / array_split
 example : batch 20 5 1 = [4, 5, 6, 7] := by decide
 example : batch 10 3 0 = [0, 1, 2, 3] ∧ batch 10 3 2 = [7, 8, 9] := by decide
-example : search 10 3 7 = some 2 := by decide
-example : (⟨"ctx", "opts", "mopts"⟩ : KeyNames).ok := by decide
-example : (⟨"context", "options", "options"⟩ : KeyNames).ok := by decide
-example : (product [["1","2"],["a","b","c"]]).length = 6 := by decide
-example : find (fromCartesian "m" [] [("a", ["1","2"]), ("b", ["x","y","1"])]) "b" "1" = some [2, 5] := by decide
-example : (fromCartesianArgs "m" [] [("a", .many ["1","2"]), ("b", .bare "solo")]).tasks
-    = [[("a","1"),("b","solo")], [("a","2"),("b","solo")]] := by decide
-example : (["a","b"].map id).Nodup ∧ (1 : Nat) < [("a", ["1","2"]), ("b", ["x","y","1"])].length := by decide
+example : sectionSizes 10 3 = [4, 3, 3] ∧ divPoints 10 3 = [0, 4, 7, 10] := by decide
+example : arraySplit (List.range 10) 3 = [some [0, 1, 2, 3], some [4, 5, 6], some [7, 8, 9]] := by decide
+example : arraySplit ["a", "b", "c", "d", "e"] 2 = [some ["a", "b", "c"], some ["d", "e"]] := by decide
+example : getBatch 20 5 1 = .ok [4, 5, 6, 7] ∧ getBatch 3 5 0 = .error .nelemLtNbatch
+    ∧ getBatch 0 0 0 = .error .nelemLt1 ∧ getBatch 5 0 0 = .error .ibatchRange ∧ getBatch 5 2 2 = .error .ibatchRange := by decide
+example : (1 : Int) ≤ 5 ∧ (5 : Int) ≤ 20 ∧ (0 : Int) ≤ 1 ∧ (1 : Int) < 5 := by decide   -- getBatch_ok, getBatch_ok_iff
+example : (1 : Nat) ≤ 3 ∧ 3 ≤ 10 ∧ 0 < 3 := by decide                                      -- getBatch_partition, batches_partition
+example : 7 ∈ batch 10 3 2 ∧ (1 : Nat) < 2 ∧ 4 ∈ batch 10 3 1 := by decide                -- batches_disjoint, mem_batch_lt
+-- SiteBatch
+example : search 10 3 7 = some 2 ∧ search 10 3 12 = none := by decide
+example : SiteBatch.mk? ["a", "b", "c", "d", "e"] 2 = some (⟨["a", "b", "c", "d", "e"], 2⟩ : SiteBatch String)
+    ∧ SiteBatch.mk? ["a", "b", "a"] 2 = none := by decide
+example : ["a", "b", "c", "d", "e"].Nodup ∧ 1 ≤ 2 ∧ 2 ≤ ["a", "b", "c", "d", "e"].length ∧ 3 < ["a", "b", "c", "d", "e"].length := by decide
+example : (⟨["a", "b", "c", "d", "e"], 2⟩ : SiteBatch String).getItem 1 = .ok ["d", "e"]
+    ∧ (⟨["a", "b", "c", "d", "e"], 2⟩ : SiteBatch String).search "d" = .ok (some 1)
+    ∧ (⟨["a", "b", "c", "d", "e"], 2⟩ : SiteBatch String).search "zz" = .ok none
+    ∧ (⟨["a", "b", "c"], 5⟩ : SiteBatch String).search "a" = .error .nelemLtNbatch
+    ∧ (⟨["a", "b", "c"], 0⟩ : SiteBatch String).search "a" = .ok none
+    ∧ (⟨["a", "b", "c"], 2⟩ : SiteBatch String).getItem 2 = .error .ibatchRange := by decide
+example : "zz" ∉ ["a", "b", "c", "d", "e"] ∧ ((["a", "b", "c"].length : Int) < 5) := by decide  -- search_absent, search_rejects
+-- cartesian product
+example : (product [[.int 1, .int 2], [.str "a", .str "b", .str "c"]]).length = 6 := by decide
+example : ∀ l ∈ [[Val.int 1, .int 2], [.str "a", .str "b"]], l.Nodup := by decide         -- product_nodup
+example : (product [[.int 1, .int 2], [.str "a", .str "b", .str "c"]])[1 * 3 + 2]? = some [.int 2, .str "c"] := by decide
+example : exArgs.map (·.2.toList?) = exLists.map some ∧ (exArgs.map (·.1)).Nodup := by decide
+example : (fromCartesianArgs "m" [("c", .other "None")] exArgs).tasks.length = 6
+    ∧ (fromCartesianArgs "m" [] exArgs).tasks[3]? = some [("month", .int 10), ("model", .str "gr4j"), ("k", .int 2)] := by decide
+example : ((Manager.new "m" []).cartesian exArgs).2 = true
+    ∧ ((fromCartesianArgs "m" [] exArgs).cartesian [("a", .many [.int 3]), ("b", .notIterable), ("c", .bare (.int 1))])
+      = ({ fromCartesianArgs "m" [] exArgs with options := [("a", [.int 3])] }, false) := by decide
+example : ∀ kv ∈ (fromCartesianArgs "m" [] exArgs).options, kv.2.Nodup := by decide       -- fromCartesian_tasks_nodup
+-- find
+example : find (fromCartesianArgs "m" [] exArgs) [("month", .int 1)] = .ok [0, 1]
+    ∧ find (fromCartesianArgs "m" [] exArgs) [("month", .int 1), ("k", .int 2)] = .ok [1]
+    ∧ find (fromCartesianArgs "m" [] exArgs) [] = .ok [0, 1, 2, 3, 4, 5]
+    ∧ find (fromCartesianArgs "m" [] exArgs) [("nokey", .int 1)] = .error .unknownKey
+    ∧ find (Manager.new "m" []) [("nokey", .int 1)] = .ok [] := by decide
+example : (∀ kv ∈ [("month", Val.int 1), ("k", Val.int 2)], ((fromCartesianArgs "m" [] exArgs).options.lookup kv.1).isSome)
+    ∧ (∀ t ∈ (fromCartesianArgs "m" [] exArgs).tasks, ∀ kv ∈ [("month", Val.int 1), ("k", Val.int 2)], (t.lookup kv.1).isSome) := by decide
+example : (Val.int 10).quant = true ∧ (Val.str "x1").quant = true ∧ (Val.str "10").quant = false ∧ (Val.flt "0.5").quant = false
+    ∧ (∀ v ∈ exLists[0]!, v.quant = true) := by decide
+example : valMatch (.int 1) (.int 10) = false ∧ valMatch (.int 10) (.int 10) = true ∧ valMatch (.str "x") (.str "x1") = false := by decide
+-- get_task
+example : getTask (fromCartesianArgs "m" [("c", .int 7)] exArgs) 4 = some ⟨4, [("c", .int 7)], [("month", .str "all"), ("model", .str "gr4j"), ("k", .int 1)]⟩
+    ∧ getTask (fromCartesianArgs "m" [] exArgs) 6 = none ∧ getTask (fromCartesianArgs "m" [] exArgs) (-1) = none := by decide
+example : (⟨4, [("c", .int 7)], [("month", .str "all"), ("k", .int 1)]⟩ : Task).get "k" = some (.int 1)
+    ∧ (⟨4, [("c", .int 7)], [("month", .str "all"), ("k", .int 1)]⟩ : Task).get "c" = some (.int 7)
+    ∧ (⟨4, [("c", .int 7)], [("month", .str "all"), ("k", .int 1)]⟩ : Task).get "zz" = none := by decide
+-- key names
+example : KeyNames.default.ok ∧ (⟨"ctx", "opts", "mopts"⟩ : KeyNames).ok ∧ (⟨"c", "c", "o"⟩ : KeyNames).ok
+    ∧ (⟨"taskid", "taskid", "mo"⟩ : KeyNames).ok := by decide
+example : (⟨"name", "o", "mo"⟩ : KeyNames).okEq ∧ ¬ (⟨"name", "o", "mo"⟩ : KeyNames).ok ∧ ¬ (⟨"x", "o", "x"⟩ : KeyNames).okEq := by decide
+example : fromDict ⟨"ctx", "opt", "mopt"⟩ (toDict ⟨"ctx", "opt", "mopt"⟩ (fromCartesianArgs "m" [("c", .int 7)] exArgs))
+    = some (fromCartesianArgs "m" [("c", .int 7)] exArgs) := by decide
+-- histories
+example : (run (World.init "m" [("c", .int 7)]) exOps).2 =
+    [.ok, .ids [0, 1], .ok, .mgr (fromCartesianArgs "m" [("c", .int 7)] exArgs), .ok, .mgr (fromCartesianArgs "m" [("c", .int 7)] exArgs),
+     .ok, .mgr (fromCartesianArgs "m" [("c", .int 7)] exArgs), .task ⟨1, [("c", .int 7)], [("a", .int 4)]⟩, .ok, .err,
+     .ok, .err, .ok, .mgr (fromCartesianArgs "m" [("c", .int 7)] [("a", .many [.int 3, .int 4])]), .err,
+     .ids [], .err] := by decide
+example : (run (World.init "m" []) exOps).1.kn.okEq ∧ (run (World.init "m" []) exOps).1.kn.ok
+    ∧ ((run (World.init "m" []) exOps).1.files.lookup "f1").isSome = true
+    ∧ ((run (World.init "m" []) exOps).1.files.lookup "f2").isNone = true := by decide
+example : ∀ op ∈ [Op.find [("a", Val.int 3)], .exp, .imp, .save "f" true, .setKey "context_name" "c"], ∀ a, op ≠ .cartesian a := by
+  intro op hop a; simp at hop; rcases hop with rfl | rfl | rfl | rfl | rfl <;> simp
+example : ∀ op ∈ [Op.imp, .jsn, .find [("a", Val.int 3)], .imp, .save "f" true, .imp],
+    (∀ a, op ≠ .cartesian a) ∧ (∀ k n, op ≠ .setKey k n) ∧ op ≠ .resetKeys ∧ op ≠ .exp := by
+  intro op hop
+  simp only [List.mem_cons, List.mem_nil_iff, or_false] at hop
+  rcases hop with rfl | rfl | rfl | rfl | rfl | rfl <;> simp
+
 
 end HydroVerif.C19
